@@ -45,6 +45,10 @@ func main() {
 	variants := flag.Int("variants", 2, "addr/keys: concrete instances per abstract case (variant 0 = the model's representative)")
 	muts := flag.Int("muts", 1, "addr: mutated texts per abstract case")
 	flag.Parse()
+	if *mode == "fpone" { // helper process of the keys mode (fingerprints of one key without any history)
+		fmt.Println(runFpOne(*in))
+		return
+	}
 	w, err := trace.Create(*out)
 	if err != nil {
 		fatal(err)
